@@ -34,6 +34,7 @@ def analytic_psi_grad(cfg):
     r0, z0 = E.R0, E.Z0
     lobes = {"lsn": [(1, r0, 0.3 - z0), (1, r0, -0.3 - z0)], "usn": [(1, r0, z0 + 0.3), (1, r0, z0 - 0.3)],
              "cdn": [(1, r0, 0.0), (1, r0, -2 * z0), (1, r0, 2 * z0)], "udn": [(1, r0, 0.0), (1, r0, -2 * z0 - 0.002), (1, r0, 2 * z0)],
+             "cdn_unbal": [(1, r0, 0.0), (1, r0, -2 * z0 - 0.0001), (1, r0, 2 * z0)],
              "ldn": [(-1, r0, 0.0), (-1, r0, -2 * z0), (-1, r0, 2 * z0 + 0.003)], "udn2": [(1, r0, 0.0), (1, r0, -2 * z0 - 0.02), (1, r0, 2 * z0)],
              "lsn_tilt": [(1, r0, 0.3 - z0), (1, r0 + 0.08, -0.3 - z0)]}[geom]
     w2 = 0.3 ** 2
